@@ -224,6 +224,10 @@ pub struct Ctx {
     journal: Option<std::fs::File>,
     pub case_counter: u64,
     pub max_samples: usize,
+    /// tokens that must be unique across all shards/processes of a run (checked by the driver)
+    pub unique_tokens: Vec<String>,
+    /// per call site: (order tag, number of scalars, per-bit count of ones) for the driver's 8-sigma test
+    pub bit_stats: BTreeMap<String, (String, u64, Vec<u64>)>,
 }
 
 impl Ctx {
@@ -251,6 +255,8 @@ impl Ctx {
             journal,
             case_counter: 0,
             max_samples: 8,
+            unique_tokens: vec![],
+            bit_stats: BTreeMap::new(),
         }
     }
     /// Work partitioning: case number i of a section belongs to exactly one shard.
@@ -328,6 +334,19 @@ impl Ctx {
             e.witness = witness;
         }
     }
+    pub fn unique(&mut self, site: &str, token: &[u8]) {
+        self.unique_tokens.push(format!("{}:{}", hex::encode(token), site));
+    }
+    pub fn bits(&mut self, site: &str, order: &str, value_be: &[u8; 32]) {
+        let e = self.bit_stats.entry(site.to_string()).or_insert_with(|| (order.to_string(), 0, vec![0; 256]));
+        e.1 += 1;
+        for j in 0..256 {
+            // bit j of the integer (j = 0 least significant)
+            if value_be[31 - j / 8] >> (j % 8) & 1 == 1 {
+                e.2[j] += 1;
+            }
+        }
+    }
     pub fn journal_call(&mut self, op: &str, detail: &str) {
         self.case_counter += 1;
         if let Some(f) = self.journal.as_mut() {
@@ -363,6 +382,8 @@ impl Ctx {
             "notes": self.notes,
             "selftest": self.selftest.iter().map(|(n, ok)| json!({"name": n, "ok": ok})).collect::<Vec<_>>(),
             "wall_s": wall_s,
+            "unique_tokens": self.unique_tokens,
+            "bit_stats": self.bit_stats.iter().map(|(k, v)| (k.clone(), json!({"order": v.0, "n": v.1, "ones": v.2}))).collect::<Map<String, Value>>(),
         })
     }
 }
